@@ -27,7 +27,7 @@ import (
 
 func c18Counts(tier string) (batches, per int) {
 	if tier == "thorough" {
-		return 4000, 50
+		return 12000, 50
 	}
 	return 400, 25
 }
@@ -119,15 +119,37 @@ func c18Case(c *Ctx) {
 	_, per := c18Counts(c.Tier)
 	canary := c.Case%2 == 0
 	var secrets []secret
+	calls := 0
 	add := func(v string, whole bool) {
 		if v != "" {
 			secrets = append(secrets, secret{v, whole})
 		}
 	}
+	addWindows := func(word string) { // every 8-character window of a canary word is a secret fragment
+		cs := oracle.Chars(word)
+		for i := 0; i+8 <= len(cs); i++ {
+			add(strings.Join(cs[i:i+8], ""), false)
+		}
+	}
+	tokenAPI := func(p *spg.Password) { // what a caller does next with a password
+		if p == nil {
+			return
+		}
+		defer func() { recover() }()
+		ts := p.Tokens()
+		ts.Kind()
+		ts.Atoms()
+		ts.Separators()
+		if idx, err := ts.MakeIndices(); err == nil {
+			spg.Tokenize(p.String(), idx, p.Entropy)
+		}
+		calls += 3
+	}
 	addPw := func(p *spg.Password, fragments bool) {
 		if p == nil {
 			return
 		}
+		tokenAPI(p)
 		add(p.String(), true)
 		if fragments {
 			for _, t := range p.Tokens() {
@@ -136,7 +158,6 @@ func c18Case(c *Ctx) {
 		}
 	}
 	minLen := 8
-	calls := 0
 	if canary {
 		for _, ch := range canaryChars { // no diagnostic can contain a canary character, drawn or not
 			add(ch, false)
@@ -275,6 +296,16 @@ func c18Case(c *Ctx) {
 					if c.R.Bool() {
 						w.Words = append(w.Words, w.Words[0]) // duplicate: the notice path
 					}
+					if c.R.Chance(1, 4) {
+						w.Words = append(w.Words, "") // the empty word (known finding F7): passwords come out short
+					}
+					if c.R.Chance(1, 4) { // a word too long for the token index
+						long := ""
+						for len(long) < 260 {
+							long += canaryWord(c.R)
+						}
+						w.Words = append(w.Words, long)
+					}
 					w.Length = c.R.Range(1, 5)
 					w.Scheme = schemes[c.R.Intn(5)]
 					w.SepKind = "constructed"
@@ -330,6 +361,7 @@ func c18Case(c *Ctx) {
 					for _, word := range w.Words {
 						add(word, true)
 						add(oracle.Title(word), true)
+						addWindows(word)
 					}
 				}
 				if len(descs) < 2 {
